@@ -41,6 +41,14 @@ STRIDED = ["2:1-2", "2:2-4", "2:8-1", "3:1-2-4", "3:4-8-1", "4:1-2-4-8", "4:8-1-
 BASE_OPS = ["Offset", "OffsetLength", "Ctxt", "ReadScope", "CtxtScope", "ScopeOwned"]
 # operations the recorded scripts must have executed with every shape (counted on the harness' choices)
 REC_OPS = ["ReadT", "ScopeRead", "ReadArray", "ReadArrayStride", "ReadArrayUpto", "GetItem", "Iter", "Search"]
+# (operation, prescribed outcome) pairs and dependent-element situations the generated cases must contain
+GEN_OPS = ["CtxtClone|ok", "ScopeReadDep|ok", "ScopeReadDep|Eof", "EmptyArray|ok", "ReadB|ok", "ReadB|Eof", "Check|ok", "Check|BadValue",
+           "Check|BadIndex", "Check|BadVersion", "ReadArrayDepT|ok", "ReadArrayDepT|Eof", "ReadDep|ok", "ReadDep|Eof",
+           "ReadItem|BadValue", "ReadToVec|BadValue", "ReadArrayDep|ok", "ReadArrayDep|Eof"]
+GEN_DEP = ["dep|item.positioned", "dep|iter.many", "dep|tovec.nonempty", "depv|item.positioned", "depv|item.refused",
+           "depv|iter.mixed", "depv|iter.allrefused", "depv|iter.many", "depv|tovec.refused", "depv|tovec.nonempty"]
+GEN_EMPTY = ["Len", "GetItem", "ReadItem", "Last", "Iter", "IntoIter", "ToVec", "IterRes", "ReadToVec", "CowIter", "OwnIter",
+             "Search", "CheckIndex"]
 
 
 def _errclass(e):
@@ -99,6 +107,18 @@ def _planted_events():
             ("OffsetLength", _op("OffsetLength", 1, "", 2, 2), _obs(new=[2, 2, 2, 1])),
             ("ReadCache", _op("ReadCache", 2, "u16"), _obs(v=[1, 2], num=258)),
         ],
+        # an element of a dependent array that is handed the rest of the array instead of its own 3 bytes
+        "selftest-depwindow": [
+            ("Ctxt", _op("Ctxt", 1), _obs(new=[0, 8, 0, 1])),
+            ("ReadArrayDep", _op("ReadArrayDep", 2, "dep", 2, 3), _obs(cnt=2, new=[-1, -1, 2, -1], rem=2)),
+            ("ReadItem", _op("ReadItem", 3, "dep", 0), _obs(v=[1, 2, 3], aux=[0, 6])),
+        ],
+        # read_to_vec that swallows the refusal of elements 0 and 2 (first byte odd) and returns the others
+        "selftest-refused": [
+            ("Ctxt", _op("Ctxt", 1), _obs(new=[0, 8, 0, 1])),
+            ("ReadArrayDep", _op("ReadArrayDep", 2, "depv", 4, 1), _obs(cnt=4, new=[-1, -1, 4, -1], rem=4)),
+            ("ReadToVec", _op("ReadToVec", 3, "depv"), _obs(v=[2, 4], cnt=2)),
+        ],
     }
     evs, bad = [], {}
     i = 10 ** 8
@@ -134,7 +154,8 @@ def _vacuity(counters, rec_counters):
     for op in ("Offset", "OffsetLength"):
         if counters.get("base|%s|huge" % op, 0) == 0:
             missing.append("generated %s with a huge base" % op)
-    for k in ("cache|hit", "cache|miss", "eq|0", "eq|1"):
+    for k in ["cache|hit", "cache|miss", "eq|0", "eq|1"] + ["op|" + x for x in GEN_OPS] + GEN_DEP + \
+            ["emptyarray|" + x for x in GEN_EMPTY]:
         if counters.get(k, 0) == 0:
             missing.append("generated " + k)
     missing_rec = []
@@ -142,9 +163,14 @@ def _vacuity(counters, rec_counters):
         for op in REC_OPS:
             if rec_counters.get("rec|%s|%s" % (sh, op), 0) == 0:
                 missing_rec.append("recorded %s %s" % (sh, op))
-    for op in ("ReadCache", "ScopeEq", "ScopeOwned", "ReadDep", "OwnIter", "OwnGetItem", "IntoIter", "ReadToVec"):
+    for op in ("ReadCache", "ScopeEq", "ScopeOwned", "ReadDep", "OwnIter", "OwnGetItem", "IntoIter", "ReadToVec",
+               "ScopeReadDep", "EmptyArray", "ReadB", "Check", "ReadArrayDepT", "ReadArrayDep", "IterRes", "CtxtClone"):
         if rec_counters.get("recop|" + op, 0) == 0:
             missing_rec.append("recorded " + op)
+    # nesting: operations executed on objects at least three (contexts, arrays: four) derivation steps from the root
+    for kind, d in (("scope", 3), ("ctxt", 4), ("array", 4)):
+        if sum(v for k, v in rec_counters.items() if k.startswith("recdepth|%s|" % kind) and int(k.split("|")[2]) >= d) == 0:
+            missing_rec.append("recorded operation on a %s at depth >= %d" % (kind, d))
     return missing, missing_rec
 
 
@@ -170,7 +196,7 @@ def run(ctx):
                 n_cases[0] += 1
                 if len(sample_cases) < 2 and '"path":[{' in payload and len(payload) < 60000:
                     sample_cases.append(payload)
-        mc = vlib.run_tlc(ctx, "MC_BinaryReader", cfg, "mc", workers=4, timeout=1800 if not ctx.quick else 600,
+        mc = vlib.run_tlc(ctx, "MC_BinaryReader", cfg, "mc", workers=4, timeout=2400 if not ctx.quick else 1500,
                           sink=sink)
         fc.write(json.dumps(_planted_case()) + "\n")
     planted_ci = n_cases[0]          # index of the planted case in the file
@@ -275,11 +301,19 @@ def run(ctx):
         "tlc_states_generated": mc.generated,
         "tlc_depth": mc.depth,
         "binding_selfcheck": "replay: impossible expectation rejected; judge: %d hand-written corrupted cases "
-                             "(value, base, tuple layout, cached read) each rejected at the corrupted event only"
+                             "(value, base, tuple layout, cached read, window handed to a dependent element, "
+                             "swallowed element refusal) each rejected at the corrupted event only"
                              % len(planted_bad),
         "vacuity_per_shape_generated": _per_shape(counters),
-        "vacuity_scope_base_generated": {k: v for k, v in counters.items() if not k.startswith("shape|")},
+        "vacuity_scope_base_generated": {k: v for k, v in counters.items()
+                                         if not k.startswith(("shape|", "op|", "dep", "emptyarray|"))},
+        "vacuity_op_outcome_generated": {k[3:]: v for k, v in counters.items() if k.startswith("op|")},
+        "vacuity_dependent_elements_generated": {k: v for k, v in counters.items() if k.startswith("dep")},
+        "vacuity_empty_array_ops_generated": {k[len("emptyarray|"):]: v for k, v in counters.items()
+                                              if k.startswith("emptyarray|")},
         "vacuity_recorded_ops": {k[len("recop|"):]: v for k, v in rec_counters.items() if k.startswith("recop|")},
+        "vacuity_recorded_ops_by_kind_and_depth": {k[len("recdepth|"):]: v for k, v in rec_counters.items()
+                                                   if k.startswith("recdepth|")},
         "vacuity_recorded_min_per_shape_op": min([rec_counters.get("rec|%s|%s" % (sh, op), 0)
                                                   for sh in SHAPES for op in REC_OPS]),
         "exhaustive": True,
